@@ -77,8 +77,10 @@ class FieldData:
       if self._datatype.get(fieldname, None) is not None:
         return self._set_existing_field(fieldname, value)
       elif value is not None:
-        self._datatype[fieldname] = \
-            gfapy.Field._get_default_gfa_tag_datatype(value)
+        datatype = gfapy.Field._get_default_gfa_tag_datatype(value)
+        if self.vlevel >= 3:
+          gfapy.Field._validate_gfa_field(value, datatype, fieldname)
+        self._datatype[fieldname] = datatype
         self._data[fieldname] = value
         return self._data[fieldname]
     else:
